@@ -89,6 +89,14 @@ CHECKS = {
              'integrity, name uniqueness, exact deletion and serve-or-4xx on every step.',
         note='Trusted: TLC, sqlite3 projection, shims. Histories replayed on the code are scripted/random over the model alphabet (not '
              'model-emitted). Known findings are matched by clause + history pattern.', design='4 C17'),
+    'C14': dict(
+        technique='TLA+ specs Events.tla + Scte35.tla (bit layout + CRC-32/MPEG-2 on 16-bit limbs): TLC over a schedule x segment grid; real '
+                  'emsg generation (pure and HTTP) and SCTE-35 sections decoded and judged by TLC',
+        text='TLC checks that the implementation-shaped emsg loop delivers exactly the expected event ids for every schedule of the grid and '
+             'every segment; the real create_emsg_boxes runs on the same grid, real vod/live segments and out-of-band manifests are fetched, '
+             'emsg boxes are read by the independent walker and every SCTE-35 section (in-band, in manifests, and round-trip boundary values) '
+             'is decoded in TLA+ (splice_insert field offsets, 33-bit fields as limbs, CRC) and compared with the schedule.',
+        note='Trusted: TLC, the ISO-BMFF walker, base64 decoding of manifest payloads. Schedules below 2^31; interval > 0.', design='4 C14'),
     'C20': dict(
         technique='TLA+ spec BufferedReader.tla: TLC exhaustive refinement check (implementation-shaped cache model vs '
                   'in-memory stream) + every model edge replayed on the real class + TLC trace validation of recorded calls',
